@@ -360,6 +360,9 @@ func init() {
 			{"hasEndpoint", rt, "Core", "HasEndpoint"},
 			{"bundleDeletion", rt, "Core", "bundleDeletion"},
 			{"localDelivery", rt, "Core", "localDelivery"},
+			{"checkPendingBundles", rt, "Core", "checkPendingBundles"},
+			{"descriptorBundle", rt, "BundleDescriptor", "Bundle"},
+			{"newBundleItem", "pkg/storage", "", "newBundleItem"},
 			{"agentHasEndpoint", rt, "AgentManager", "HasEndpoint"},
 			{"claHasEndpoint", "pkg/cla", "Manager", "HasEndpoint"},
 			{"newStatusReport", bp, "", "NewStatusReport"},
